@@ -55,6 +55,23 @@ def random_problem(rng, allow_alias=True):
         if rng.random() < 0.5:
             cons.append((list(range(n)), "scc", []))
         return dict(doms=doms, idx=list(range(n)), off=[0] * n, cons=cons)
+    if rng.random() < 0.10:
+        # linear equalities with non-unit coefficients on wider domains: one round of interval reasoning is not idempotent there
+        D = rng.choice([2, 2, 3])
+        doms = [(lo, lo + rng.randint(3, 6)) for lo in (rng.randint(-1, 1) for _ in range(D))]
+        cons = []
+        for _ in range(rng.choice([1, 1, 2])):
+            n = rng.choice([2, 2, 3]) if D >= 3 else 2
+            vs = rng.sample(range(D), n)
+            cs = [rng.choice([-3, -2, 2, 3, 1]) for _ in range(n)]
+            point = [rng.randint(doms[v][0], doms[v][1]) for v in vs]
+            cons.append((vs, "affine_eq", cs + [sum(c * x for c, x in zip(cs, point)) + rng.choice([0, 0, 0, 1])]))
+        if rng.random() < 0.3:
+            cons = []  # only constraints that watch one bound per variable
+        if rng.random() < 0.5 or not cons:
+            vs = rng.sample(range(D), 2)
+            cons.append((vs, rng.choice(["affine_leq", "affine_geq"]), [rng.choice([1, 1, 2, -1]), rng.choice([1, 1, -1]), rng.randint(0, 9)]))
+        return dict(doms=doms, idx=list(range(D)), off=[0] * D, cons=cons)
     D = rng.choice([1, 2, 2, 3, 3])
     doms = []
     for _ in range(D):
@@ -102,6 +119,24 @@ def random_problem(rng, allow_alias=True):
             vs, params = [rng.randrange(V)], []
         cons.append((vs, name, params))
     return dict(doms=doms, idx=idx, off=off, cons=cons)
+
+
+# directed shapes that the random generator reaches rarely: non-idempotent linear equalities on wide domains, constraints watching one bound per
+# variable on wide domains (three-way value splits, shaving probes), entailment of one constraint followed by an optimisation restart
+CORPUS = [
+    dict(doms=[(1, 6), (0, 4)], idx=[0, 1], off=[0, 0], cons=[([0, 1], "affine_eq", [2, 3, 13])]),
+    dict(doms=[(0, 9), (0, 9)], idx=[0, 1], off=[0, 0], cons=[([0, 1], "affine_eq", [3, -2, 1])]),
+    dict(doms=[(0, 9), (0, 9), (0, 5)], idx=[0, 1, 2], off=[0, 0, 0], cons=[([0, 1], "affine_eq", [3, -2, 1]), ([1, 2], "affine_leq", [1, 1, 9])]),
+    dict(doms=[(0, 6), (0, 6), (0, 6)], idx=[0, 1, 2], off=[0, 0, 0], cons=[([0, 1, 2], "affine_eq", [2, -3, 2, 5])]),
+    dict(doms=[(0, 2), (0, 3)], idx=[0, 1], off=[0, 0], cons=[([0, 1], "affine_leq", [1, 2, 2]), ([0, 1], "affine_geq", [1, 1, 2])]),
+    dict(doms=[(0, 4), (0, 2)], idx=[0, 1], off=[0, 0], cons=[([0, 1], "affine_geq", [1, 1, 4])]),
+    dict(doms=[(0, 4), (0, 4)], idx=[0, 1], off=[0, 0], cons=[([0, 1], "affine_leq", [1, 1, 3])]),
+    dict(doms=[(0, 3), (0, 5)], idx=[0, 1], off=[0, 0], cons=[([0, 1], "affine_leq", [1, -1, 0])]),
+    dict(doms=[(0, 3), (0, 5)], idx=[0, 1], off=[0, 0], cons=[([0, 1], "affine_leq", [1, -1, 0]), ([1, 0], "affine_leq", [1, -1, 3])]),
+    dict(doms=[(0, 4), (0, 4), (0, 4)], idx=[0, 1, 2], off=[0, 0, 0], cons=[([0, 1, 2], "max_leq", []), ([0, 1, 2], "min_geq", [])]),
+    # (the first len(doms) variables are the shared domains themselves, as in random_problem: the C13 'unshare' rewriting relies on it)
+    dict(doms=[(0, 5), (2, 6)], idx=[0, 1, 0, 1], off=[0, 0, 2, -3], cons=[([2, 3], "affine_geq", [1, 1, 2]), ([0, 1], "affine_leq", [1, 1, 7])]),
+]
 
 
 def build(pb, order=None):
@@ -183,6 +218,10 @@ def install_fixpoint_monitor():
 
     for k in range(len(ca.CONSISTENCY_ALG_FCTS)):
         ca.CONSISTENCY_ALG_FCTS[k] = wrap(ca.CONSISTENCY_ALG_FCTS[k])
+    # the propagation passes nested in shaving (probe levels) are passes too: the module-level name is what shave_bound / the shaving loop call
+    import nucs.solvers.shaving_consistency_algorithm as sh
+    if hasattr(sh, "bound_consistency_algorithm"):
+        sh.bound_consistency_algorithm = wrap(sh.bound_consistency_algorithm)
 
 
 OBS = dict(depth=0, calls=0, entailed=0, failed=0)
@@ -233,7 +272,7 @@ def run(arg, pid, tier, seed):
     for k in range(n_problems):
         if time.time() > t_end:
             break
-        pb = random_problem(rng)
+        pb = CORPUS[k] if k < len(CORPUS) else random_problem(rng)
         key = repr(pb)
         if key in seen:
             continue
@@ -285,6 +324,18 @@ def run(arg, pid, tier, seed):
                     report("C17.depth", pb, cfg, f"CHOICE_DEPTH {st['SOLVER_CHOICE_DEPTH']} != deepest stack level reached {OBS['depth']}")
             if pid == "C10" and int(s.stacks_top[0]) != 0:
                 report("C10.height", pb, cfg, f"stack height {int(s.stacks_top[0])} after exhaustive enumeration")
+        if pid == "C01":
+            # what minimize / maximize return is a solution too (the restart between two improvements re-arms the whole engine state)
+            for v in range(len(pb["idx"])):
+                for cfg in CONFIGS[:: 7]:
+                    for mode in ("minimize", "maximize"):
+                        ev += 1
+                        try:
+                            r = guarded(lambda: getattr(solver(pb, cfg), mode)(v))
+                        except Exception:  # noqa  (termination / exceptions are C03, C04, C16)
+                            continue
+                        if r is not None and tuple(int(a) for a in r) not in set(ref):
+                            report("C01.optimum_not_solution", pb, cfg, f"{mode}({v}) returned {[int(a) for a in r]} which is not a solution")
         if pid == "C03":
             for v in range(len(pb["idx"])):
                 for cfg in CONFIGS[:: 7]:
